@@ -6,6 +6,7 @@ import FinProto.Obl.SPrims
 import FinProto.Obl.SEndian
 import FinProto.Obl.SNoOpaque
 import FinProto.Props.PrimLemmas
+import FinProto.Props.NoSvcProofs
 namespace FinProto.Obl
 open FinProto
 
@@ -17,5 +18,10 @@ theorem C03_scalar (w n : Nat) : writeScalar w .le n = (writeScalar w .be n).rev
 
 /-- the primitives, template-translated from the current source, are the pinned ones (or unrecognised) -/
 theorem C03_prims : primsAgree Gen.prims pinnedPrims = true := gen_prims_agree
+
+set_option linter.defProp false in
+/-- no checksum service registered: the frame is unchanged up to the trailer, which is the caller's value in the
+    frame's byte order (instantiated at the regenerated schema) -/
+def C03_nosvc := @encodeNS_spec Gen.env
 
 end FinProto.Obl
